@@ -6,7 +6,7 @@ import scale, impl, gen, oracle
 from impl import quiet, UnmatchedInstancePair, MaximizeMergeMatching
 from common import score_matches
 
-RULE = ("the matched pair returned by match_instances is checked against the label map (voxels carrying a matched reference's label = union of its merged fragments); ids beyond 2^25 with relabelling chains; fragment scenes embedded in canvases of more than 2^21 voxels (oracle only); half of the cases through long-lived matcher objects reused across different inputs with the same label values; references with 15-40 one-voxel fragments carrying sparse labels; references covered by 2-5 prediction fragments (column chunks of a box, some spilling far outside, some dropped, "
+RULE = ("ASSD scenes whose first fragment is the one-voxel frame of a solid reference (stored score exactly 0.0), also with an axis of length one; the matched pair returned by match_instances is checked against the label map (voxels carrying a matched reference's label = union of its merged fragments); ids beyond 2^25 with relabelling chains; fragment scenes embedded in canvases of more than 2^21 voxels (oracle only); half of the cases through long-lived matcher objects reused across different inputs with the same label values; references with 15-40 one-voxel fragments carrying sparse labels; references covered by 2-5 prediction fragments (column chunks of a box, some spilling far outside, some dropped, "
         "fragments shared between two references) plus object-based random maps x metric {IOU,DSC,ASSD} x thresholds; "
         "non-trivial = a reference with >= 2 candidate fragments of which at least one is rejected or merged")
 
@@ -233,6 +233,35 @@ def many_fragments(rng):
     return pred, ref
 
 
+def frame_scene(rng):
+    """a solid reference; first fragment = its one-voxel-thick frame (ASSD exactly 0.0 — only border voxels count — although
+    it is not the reference), further fragments: the interior, possibly with a stray part elsewhere, and a bar reaching
+    far outside; optionally stored with an axis of length one"""
+    H, W = rng.randint(7, 10), rng.randint(7, 10)
+    ref = np.zeros((H + 6, W + 8), np.uint8)
+    pred = np.zeros_like(ref)
+    ref[2:2 + H, 2:2 + W] = 1
+    pred[2:2 + H, 2:2 + W] = 1
+    pred[3:1 + H, 3:1 + W] = 2                    # interior
+    k = rng.random()
+    if k < 0.4:
+        pred[H + 4, W + 5] = 2                    # ... plus a stray voxel elsewhere
+    elif k < 0.7:
+        pred[3:1 + H, 3:1 + W] = 0
+        pred[4, 3:W + 7] = 3                      # a bar through the interior reaching far outside
+    elif k < 0.9:
+        # the frame opened on the right for two rows; a two-row bar through the opening, a little way in, far out
+        out_ = rng.randint(3, 6)
+        y = rng.randint(4, H - 1)
+        pred[3:1 + H, 3:1 + W] = 0
+        pred[y:y + 2, 1 + W] = 0
+        pred[y:y + 2, W - rng.randint(0, 2):min(pred.shape[1], 2 + W + out_)] = 3
+    if rng.random() < 0.4:
+        ax = rng.randint(0, 2)
+        ref, pred = np.expand_dims(ref, ax), np.expand_dims(pred, ax)
+    return pred, ref
+
+
 def big_id_chain(rng):
     """ids around 4*10^7 (beyond 2^25): reference b's id equals the id of a fragment that is matched to reference a,
     and b's own fragment is assigned later (lower score), so a relabelling that renames entries one after another
@@ -276,6 +305,10 @@ def run(ctx):
         p, r = big_id_chain(rng)
         ctx.count("ids_beyond_2^25_with_chain")
         one_case(ctx, p, r, "IOU", rng.choice([(1, 2), (1, 4)]), f"bigid{i}")
+    for i in range(ctx.scale(12, 60)):
+        p, r = frame_scene(rng)
+        ctx.count("frame_fragment_with_zero_distance" + (".singleton_axis" if 1 in p.shape else ""))
+        one_case(ctx, p, r, "ASSD", rng.choice([(1, 2), (1, 1), (2, 1)]), f"frame{i}")
     for k, rec in enumerate(scale_recipes(rng)):
         P, R = scale.build(rec)
         ctx.count("scale_oracle_only")
@@ -288,6 +321,11 @@ def run(ctx):
     for i in range(ctx.scale(1500, 8000)):
         pred, ref = frag_case(rng) if rng.random() < 0.7 else gen.pair(rng, hi=8, max_obj=4, allow_empty=False)
         metric = rng.choice(["IOU", "IOU", "DSC", "ASSD"])
+        if pred.ndim == 2 and rng.random() < 0.2:
+            ax = rng.randint(0, 2)                 # the same scene stored with an axis of length one
+            pred, ref = np.expand_dims(pred, ax), np.expand_dims(ref, ax)
+            metric = rng.choice(["ASSD", "ASSD", "IOU"])
+            ctx.count("singleton_axis")
         one_case(ctx, pred, ref, metric, rng.choice(GRID[metric]), f"rand{i}", shared=rng.random() < 0.5)
 
 
